@@ -12,6 +12,7 @@ streams are decoded by the Lean reference decoder.
 -/
 import MinizProof.Gen.All
 import MinizProof.Lemmas.Finite
+import MinizProof.Lemmas.DeflStream
 set_option maxRecDepth 1000000
 open Fin'
 namespace C14
@@ -44,5 +45,102 @@ theorem failed_stays_failed : ∀ st ∈ TDEFLStatus.all, ∀ prev ∈ TDEFLFlus
 
 theorem status_codes : TDEFLStatus.BadParam = -2 ∧ TDEFLStatus.PutBufFailed = -1 ∧ TDEFLStatus.Okay = 0 ∧
     TDEFLStatus.Done = 1 ∧ MZFlush.all = [0, 1, 2, 3, 4, 5] := by decide +kernel
+
+/-! ### Protocol theorems about the model of `deflate()` (Model/DeflStream.lean), for EVERY engine
+behaviour (any script of responses) and every buffer size — induction over the loop. The model is
+tied to the code by replaying the recorded inner `compress` calls of every real `deflate()` call
+of the run (leg K). -/
+open Model.Defl
+
+/-- The model's status and result codes are the ones REGENERATED from the source. -/
+theorem codes_match_source :
+    stBadParam = TDEFLStatus.BadParam ∧ stPutBufFailed = TDEFLStatus.PutBufFailed ∧ stOkay = TDEFLStatus.Okay ∧
+    stDone = TDEFLStatus.Done ∧ (flNone : Int) = MZFlush.None ∧ (flFinish : Int) = MZFlush.Finish ∧
+    rOk = MZStatus.Ok ∧ rStreamEnd = MZStatus.StreamEnd ∧ rBuf = MZError.Buf ∧ rStream = MZError.Stream ∧
+    rParam = MZError.Param := by decide +kernel
+
+/-- Counts never exceed the offered buffers. -/
+theorem counts_bounded (prevDone : Bool) (inLen outLen flush : Nat) (script : List Resp) (r : Result) (cs) :
+    deflate prevDone inLen outLen flush script = .ok r cs → r.consumed ≤ inLen ∧ r.written ≤ outLen := by
+  unfold deflate
+  intro h
+  split at h
+  · simp only [Outcome.ok.injEq] at h; obtain ⟨hr, _⟩ := h; subst hr; simp
+  · split at h
+    · split at h <;> (simp only [Outcome.ok.injEq] at h; obtain ⟨hr, _⟩ := h; subst hr; simp)
+    · have := loop_counts flush script inLen outLen 0 0 [] r cs h; omega
+
+/-- An empty output buffer is refused with a buffer error and without calling the engine
+    (hence without side effects on the compressor). -/
+theorem empty_output_refused (prevDone : Bool) (inLen flush : Nat) (script : List Resp) :
+    deflate prevDone inLen 0 flush script = .ok ⟨0, 0, rBuf⟩ [] := by
+  simp [deflate]
+
+/-- A call that answers `Ok` made progress or carried a flush request. -/
+theorem ok_means_progress (prevDone : Bool) (inLen outLen flush : Nat) (script : List Resp) (r : Result) (cs) :
+    deflate prevDone inLen outLen flush script = .ok r cs → r.status = rOk →
+    r.consumed > 0 ∨ r.written > 0 ∨ flush ≠ flNone := by
+  unfold deflate
+  intro h hst
+  split at h
+  · simp only [Outcome.ok.injEq] at h; obtain ⟨hr, _⟩ := h; subst hr; simp [rBuf, rOk] at hst
+  · rename_i ho
+    split at h
+    · split at h <;> (simp only [Outcome.ok.injEq] at h; obtain ⟨hr, _⟩ := h; subst hr; simp [rBuf, rOk, rStreamEnd] at hst)
+    · exact (loop_ok flush script inLen outLen 0 0 [] r cs (by omega) h hst).1
+
+/-- With Finish the call keeps working until the stream ends or the output buffer is completely
+    full: an `Ok` answer means every output byte was used. -/
+theorem finish_fills_output (prevDone : Bool) (inLen outLen : Nat) (script : List Resp) (r : Result) (cs) :
+    deflate prevDone inLen outLen flFinish script = .ok r cs → r.status = rOk → r.written = outLen := by
+  unfold deflate
+  intro h hst
+  split at h
+  · simp only [Outcome.ok.injEq] at h; obtain ⟨hr, _⟩ := h; subst hr; simp [rBuf, rOk] at hst
+  · rename_i ho
+    split at h
+    · simp only [↓reduceIte, Outcome.ok.injEq] at h; obtain ⟨hr, _⟩ := h; subst hr; simp [rOk, rStreamEnd] at hst
+    · have := (loop_ok flFinish script inLen outLen 0 0 [] r cs (by omega) h hst).2 rfl; omega
+
+/-- After the stream has ended: Finish keeps answering stream-end with nothing consumed or
+    written, anything else is a buffer error; the engine is not called. -/
+theorem after_end (inLen outLen flush : Nat) (script : List Resp) (ho : 0 < outLen) :
+    deflate true inLen outLen flush script =
+      if flush = flFinish then .ok ⟨0, 0, rStreamEnd⟩ [] else .ok ⟨0, 0, rBuf⟩ [] := by
+  unfold deflate
+  have : outLen ≠ 0 := by omega
+  simp [this]
+
+/-- Stream end is reported only when the engine reported `Done` in this call (and the engine only
+    does so under Finish — the guard theorems above and C02), a parameter error only when the
+    engine rejected the call (`BadParam`: non-Finish after Finish, or a failed compressor). -/
+theorem status_origin (inLen outLen flush : Nat) (script : List Resp) (r : Result) (cs) :
+    deflate false inLen outLen flush script = .ok r cs →
+    (r.status = rStreamEnd → ∃ x ∈ script, x.st = stDone) ∧
+    (r.status = rParam → ∃ x ∈ script, x.st = stBadParam) := by
+  unfold deflate
+  intro h
+  split at h
+  · simp only [Outcome.ok.injEq] at h; obtain ⟨hr, _⟩ := h; subst hr; simp [rBuf, rStreamEnd, rParam]
+  · simp only [Bool.false_eq_true, ↓reduceIte] at h
+    have := loop_status_origin flush script inLen outLen 0 0 [] r cs h
+    exact ⟨this.1, this.2.1⟩
+
+/-- Repeating Finish terminates: one call answers within `inLen + outLen + 1` engine calls as
+    long as every `Okay` response of the engine makes progress. -/
+theorem call_terminates (inLen outLen flush : Nat) (script : List Resp)
+    (hp : ∀ x ∈ script, (x.st = stOkay ∧ x.cin + x.cout > 0) ∨ x.st = stDone ∨ x.st = stBadParam ∨ x.st = stPutBufFailed)
+    (hl : inLen + outLen + 1 ≤ script.length) : ∀ cs, deflate false inLen outLen flush script ≠ .stuck cs := by
+  intro cs
+  unfold deflate
+  split
+  · simp
+  · simp only [Bool.false_eq_true, ↓reduceIte]
+    exact loop_terminates flush script inLen outLen 0 0 [] hp hl cs
+
+-- non-vacuity: a concrete engine script on which the hypotheses hold and the call ends the stream
+example : deflate false 3 10 flFinish [⟨stOkay, 3, 0⟩, ⟨stDone, 0, 7⟩] = .ok ⟨3, 7, rStreamEnd⟩ [(3, 10), (0, 10)] := by
+  decide
+example : deflate false 3 2 flFinish [⟨stOkay, 3, 2⟩] = .ok ⟨3, 2, rOk⟩ [(3, 2)] := by decide
 
 end C14
